@@ -12,6 +12,8 @@
 (* and the declarative side says what a reader may conclude from them:                                  *)
 (*   RowFaithful / GroupFaithful   every unit shown in a row is the line's code at the shown address,    *)
 (*                                 the rows of a line together show all of its code                      *)
+(*   LineShown                     the row of a line that produced code holds units (no extra text in     *)
+(*                                 place of the code)                                                    *)
 (*   InFile                        the line's code is in a record of its segment at its load address     *)
 (*   MapEntryJustified             a line:address entry names a line whose code starts there             *)
 (*   ShareFormats                  the number syntax of a share line                                     *)
@@ -97,6 +99,12 @@ RowFaithful(r, e, off) ==
        /\ o + r.units[k].size <= Len(e.bytes)
        /\ r.units[k].bytes = SubSeq(e.bytes, o + 1, o + r.units[k].size)
 RowLen(r) == UnitOffset(r.units, Len(r.units) + 1)
+
+\* A listed line that produced code shows it: the first row of the line of emission e (it carries the execution
+\* address of e's first unit) holds units - an extra text ('=>TRUE', '[n]', '(MACRO)', '=value', ...) may take the
+\* place of the code dump only on lines that produced no code.  (Which statement leaves which text, and which lines
+\* are kept out of the listing altogether: ListingModes.tla.)
+LineShown(r, e) == (e.bytes # <<>> /\ r.addr = ExecAddr(e, 0)) => r.units # <<>>
 
 \* a whole group of rows (first row + continuation rows) is faithful and complete for emission e
 RECURSIVE GroupFaithful(_, _, _, _)
